@@ -94,6 +94,11 @@ def load_seeded():
             m = json.load(open(mp))
             if m.get('detected_by_own_check'):
                 out.append({'id': 'seeded-' + sid, 'property': m['property'], 'expect': 'fire', 'patch': os.path.join(d, sid, 'patch.diff'), 'edits': []})
+            else:
+                # a change that shows only under another property's quantifier (e.g. only with threads): that property's check fires
+                for prop in sorted({c.split('/')[0] for c in m.get('detected_by', [])}):
+                    out.append({'id': 'seeded-%s-via-%s' % (sid, prop), 'property': prop, 'expect': 'fire',
+                                'patch': os.path.join(d, sid, 'patch.diff'), 'edits': []})
     return out
 
 
